@@ -45,7 +45,7 @@ def runLaunches : Bool := Order.runLaunches ==
   ["outboxConsumer(w, w.outboxConfig)", "consumeStepEvents(w, currentStatus, config, 1, 1)",
    "consumeStepEvents(w, currentStatus, config, i, parallelCount)", "timeoutPoller(w, status, timeouts)",
    "timeoutAutoInserterConsumer(w, status, timeouts)", "connectorConsumer(w, config, 1, 1)",
-   "connectorConsumer(w, config, i, config.parallelCount)", "runStateChangeHookConsumer(w, state, hook)",
+   "connectorConsumer(w, config, i, parallelCount)", "runStateChangeHookConsumer(w, state, hook)",
    "deleteConsumer(w)", "pausedRecordsRetryConsumer(w)"]
 
 /-- role names are built from stable identifiers only: workflow / connector name, numeric status
